@@ -392,3 +392,73 @@ pub fn u_long_runs(nmax: usize) -> Universe {
     }
     Universe::from_words(&format!("U_longruns: a^n (n=1..={nmax}) bare, after/before xyz, between repeated and unrepeated material, twice, followed by b^n"), w, 1)
 }
+
+/// Sets with MANY test cases (parametric families, every n from 2 to nmax, one set per n and family):
+/// chain (prefixes of one word), tails (suffixes of one word), fan (common prefix, distinct middle, common suffix),
+/// grid (first n of {a..e} x {0..4} x {"", "z"}), numbers (0..n in decimal), hashed (pseudo-random hex words),
+/// ladder (a^i b^(n-i)).
+pub fn u_many(nmax: usize) -> Universe {
+    let alpha: Vec<char> = ('a'..='z').chain('A'..='Z').collect();
+    let base: String = alpha.iter().cycle().take(nmax + 2).collect();
+    let bc: Vec<char> = base.chars().collect();
+    let mut words_all: Vec<String> = vec![];
+    let mut index: std::collections::HashMap<String, usize> = std::collections::HashMap::new();
+    let mut sets = vec![];
+    let mut add = |ws: Vec<String>, sets: &mut Vec<Vec<usize>>| {
+        let mut set: Vec<usize> = ws
+            .into_iter()
+            .map(|w| {
+                *index.entry(w.clone()).or_insert_with(|| {
+                    words_all.push(w.clone());
+                    words_all.len() - 1
+                })
+            })
+            .collect();
+        set.sort();
+        set.dedup();
+        sets.push(set);
+    };
+    for n in 2..=nmax {
+        add((1..=n).map(|i| bc[..i].iter().collect()).collect(), &mut sets);
+        add((0..n).map(|i| bc[i..n].iter().collect()).collect(), &mut sets);
+        add((0..n).map(|i| format!("q{}z", alpha[i % alpha.len()].to_string().repeat(1 + i / alpha.len()))).collect(), &mut sets);
+        add((0..n).map(|i| format!("{}{}{}", (b'a' + (i % 5) as u8) as char, (i / 5) % 5, if i >= 25 { "z" } else { "" })).collect(), &mut sets);
+        add((0..n).map(|i| i.to_string()).collect(), &mut sets);
+        add((0..n).map(|i| format!("{:x}", i * 2654435761usize % 1000003)).collect(), &mut sets);
+        add((0..=n.min(24)).map(|i| format!("{}{}", "a".repeat(i), "b".repeat(n.min(24) - i))).collect(), &mut sets);
+    }
+    Universe { name: format!("U_many: chain, tails, fan, grid, numbers, hashed, ladder with n = 2..={nmax} test cases"), words: words_all, sets }
+}
+
+/// Every unordered triple {p,q,r} of 24 scalar kinds: the six orderings pqr as single test cases, the set {p,q,r},
+/// the set {pq,qr,rp} and the set {pqr, p, r}.
+pub fn u_kind_triples() -> Universe {
+    let ks = ["\\", "-", "[", "]", "^", "#", " ", ".", "(", "{", "|", "a", "A", "0", "\n", "\u{1b}", "\u{a0}", "\u{e9}", "\u{301}", "\u{663}", "\u{200d}", "\u{1f3fb}", "\u{10ffff}", "\u{df}"];
+    let mut words_all: Vec<String> = vec![];
+    let mut index: std::collections::HashMap<String, usize> = std::collections::HashMap::new();
+    let mut sets = vec![];
+    let mut id = |w: String, words_all: &mut Vec<String>| -> usize {
+        *index.entry(w.clone()).or_insert_with(|| {
+            words_all.push(w);
+            words_all.len() - 1
+        })
+    };
+    for i in 0..ks.len() {
+        for j in i + 1..ks.len() {
+            for l in j + 1..ks.len() {
+                let (p, q, r) = (ks[i], ks[j], ks[l]);
+                for w in [format!("{p}{q}{r}"), format!("{p}{r}{q}"), format!("{q}{p}{r}"), format!("{q}{r}{p}"), format!("{r}{p}{q}"), format!("{r}{q}{p}")] {
+                    let x = id(w, &mut words_all);
+                    sets.push(vec![x]);
+                }
+                let a = [id(p.to_string(), &mut words_all), id(q.to_string(), &mut words_all), id(r.to_string(), &mut words_all)];
+                sets.push(a.to_vec());
+                let b = [id(format!("{p}{q}"), &mut words_all), id(format!("{q}{r}"), &mut words_all), id(format!("{r}{p}"), &mut words_all)];
+                sets.push(b.to_vec());
+                let c = [id(format!("{p}{q}{r}"), &mut words_all), a[0], a[2]];
+                sets.push(c.to_vec());
+            }
+        }
+    }
+    Universe { name: format!("U_kindtriples: all {} triples of {} scalar kinds: 6 orderings, {{p,q,r}}, {{pq,qr,rp}}, {{pqr,p,r}}", ks.len() * (ks.len() - 1) * (ks.len() - 2) / 6, ks.len()), words: words_all, sets }
+}
